@@ -208,6 +208,26 @@ def structural_probes():
                                    xr.DataArray([[0.0, 1.0], [1.0, 0.0]], dims=["s", "sev"], coords={"sev": [0, 1]}), dw, "sev", "pt"), "rej"),
         ("roc_curve_data fcst with NaN inside [0,1]", lambda: P.roc_curve_data(nanp.where(nanp <= 1, 0.5), nanpb, [0, 0.5, 1]), "ok"),
     ]
+    # Dataset inputs: every variable is validated
+    from scores.processing.cdf import fill_cdf
+    good = xr.DataArray([0.0, 1.0, 1.0], dims="x")
+    badv = xr.DataArray([0.0, 0.5, 1.0], dims="x")
+    for order in (("bad", "good"), ("good", "bad"), ("good", "bad", "good2")):
+        obs_ds = xr.Dataset({k: (badv if k == "bad" else good) for k in order})
+        fc_ds = xr.Dataset({k: p for k in order})
+        out.append((f"brier_score Dataset obs, non-binary variable in position {order.index('bad')} of {len(order)}", lambda o_=obs_ds, f_=fc_ds: P.brier_score(f_, o_), "rej"))
+        out.append((f"probability_of_detection Dataset fcst, non-binary variable in position {order.index('bad')} of {len(order)}",
+                    lambda o_=obs_ds: Sc.categorical.probability_of_detection(o_, xr.Dataset({k: good for k in o_.data_vars})), "rej"))
+    out.append(("brier_score Dataset inputs, all variables valid", lambda: P.brier_score(xr.Dataset({"a": p, "b": p}), xr.Dataset({"a": good, "b": good})), "ok"))
+    # fill_cdf: min_nonnan boundary for each method
+    cdf1 = xr.DataArray([[0.0, float("nan"), 1.0]], dims=["s", "threshold"], coords={"threshold": [0.0, 1.0, 2.0]})
+    for meth, lo_ok in (("linear", 2), ("step", 1), ("forward", 1), ("backward", 1)):
+        out.append((f"fill_cdf method={meth} min_nonnan={lo_ok - 1}", lambda m=meth, n=lo_ok - 1: fill_cdf(cdf1, "threshold", m, n), "rej"))
+        out.append((f"fill_cdf method={meth} min_nonnan={lo_ok}", lambda m=meth, n=lo_ok: fill_cdf(cdf1, "threshold", m, n), "ok"))
+    # murphy: the Huber parameter is validated for every accepted spelling of the functional
+    for spelling in ("huber", "Huber", "HUBER"):
+        for ha, e in ((0.0, "rej"), (-1.0, "rej"), (1e-9, "ok")):
+            out.append((f"murphy_score functional={spelling!r} huber_a={ha}", lambda sp=spelling, h=ha: C.murphy_score(f, o, [1.0], functional=sp, alpha=0.5, huber_a=h), e))
     for w, e in (((0, 1), "rej"), ((1, 0), "rej"), ((1, 1), "ok"), ((3, 4), "ok"), ((4, 4), "rej"), ((3, 5), "rej")):
         out.append((f"fss window_size={w} on a 3x4 field", lambda w=w: fss_2d_single_field(fld, fld, event_threshold=0.5, window_size=w), e))
     for h, e in ((0, "rej"), (1, "ok"), (4, "ok"), (5, "rej"), (1.5, "rej"), (-1, "rej")):
